@@ -188,7 +188,7 @@ impl PendingEntryList {
 //@@ end
 
 //@@ unit pel_remove_entry fn src/storage/consumer_groups.rs PendingEntryList::remove_entry
-//@@   rewrite RXPR "consumer_entries.retain(|&x| x != *id)" "verif_retain_ne(consumer_entries, id)"
+//@@   rewrite? RXPR "consumer_entries.retain(|&x| x != *id)" "verif_retain_ne(consumer_entries, id)"
 //@@   at "Some(entry)"
 //@@|     proof { lemma_removed_wf(old(self).ids(), old(self).idx(), self.ids(), self.idx(), *id); }
     fn remove_entry(&mut self, id: &StreamId) -> (r: Option<PendingEntry>)
@@ -200,7 +200,7 @@ impl PendingEntryList {
 //@@ end
 
 //@@ unit pel_transfer_ownership fn src/storage/consumer_groups.rs PendingEntryList::transfer_ownership
-//@@   rewrite RXPR "old_entries.retain(|&x| x != *id)" "verif_retain_ne(old_entries, id)"
+//@@   rewrite? RXPR "old_entries.retain(|&x| x != *id)" "verif_retain_ne(old_entries, id)"
 //@@   rewrite RXPR "self.entries_by_consumer .entry(new_consumer) .or_insert_with(Vec::new) .push(*id)" "verif_idx_push(&mut self.entries_by_consumer, new_consumer, *id)"
 //@@   rewrite RPCALL "SystemTime::now" verif_now
 //@@   at "entry.consumer = new_consumer.clone();"
